@@ -4,11 +4,20 @@ package c04
 // is cut into chunk tasks that all carry one file id and the total size, precede the
 // command that uses the file, and concatenate to exactly the file - for file sizes
 // around multiples of the chunk size.
+//
+// TARGET POSITION is a dimension of its own: the agent the file is pushed to is directly
+// connected, or an SMB pivot child at depth 1, 2 or 3 (chain linked through the real
+// connect path, ids over the whole 32-bit range).  The bytes of a pivot agent's file end
+// up in the queue of the directly connected agent at the top of its chain, every chunk
+// wrapped once per intermediate hop; the oracle drains THAT queue, unwraps every
+// COMMAND_PIVOT layer with the hop's key the way the Demons do, and judges what the
+// target would execute.
 
 import (
 	"encoding/base64"
 	"encoding/binary"
 	"fmt"
+	"sort"
 	"strconv"
 	"testing"
 
@@ -22,7 +31,7 @@ import (
 )
 
 type FileB struct {
-	Class string `json:"class"` // 0 1 c-1 c c+1 2c-1 2c 2c+1 small mid
+	Class string `json:"class"` // 0 1 c-1 c c+1 2c-1 2c 2c+1 c-n c+n small mid
 	Size  int    `json:"size"`
 	Off   int    `json:"off"`
 }
@@ -33,21 +42,50 @@ type CaseB struct {
 	Name   string  `json:"name"`
 	Before int     `json:"before"` // small tasks already queued
 	After  int     `json:"after"`  // small tasks queued afterwards
+	// IDs is the chain of agents from the directly connected one down to the agent the
+	// file is pushed to: IDs[i+1] is an SMB pivot child of IDs[i].  Absent / one id: the
+	// target is directly connected.
+	IDs []uint32 `json:"ids,omitempty"`
+	// Mix: the small tasks before / after are spread over the agents of the chain (the
+	// i-th goes to agent i mod chain length) instead of all going to the target
+	Mix bool `json:"mix,omitempty"`
+}
+
+func (c CaseB) depth() int {
+	if len(c.IDs) < 2 {
+		return 0
+	}
+	if len(c.IDs) > 4 {
+		return 3
+	}
+	return len(c.IDs) - 1
 }
 
 // share of cases with a file around a multiple of the chunk size (each costs ~1 s and
 // a few hundred MB of transient memory)
 const bigWeightB = 7
 
+// the same share for a target behind two or more pivot hops, where every chunk is packed
+// and encrypted once per hop: kept higher so that 'deep target x file of one chunk or more'
+// is met about 15 times in a quick run although only 9 of 20 targets are that deep
+const bigWeightDeepB = 16
+
 var bigClassesB = map[string]int{"c-1": Limit - 1, "c": Limit, "c+1": Limit + 1, "2c-1": 2*Limit - 1, "2c": 2 * Limit, "2c+1": 2*Limit + 1}
 
-func genFileB(t *rapid.T, allowBig bool) FileB {
+func genFileB(t *rapid.T, allowBig bool, bigWeight int) FileB {
 	f := FileB{Off: rapid.IntRange(0, 4096).Draw(t, "off")}
-	k := agentfx.Weighted(t, "sizeclass", 44, 12, 10, 14, bigWeightB)
+	k := agentfx.Weighted(t, "sizeclass", 44, 12, 10, 14, bigWeight)
 	switch {
 	case allowBig && k == 4:
-		f.Class = []string{"c-1", "c", "c+1", "2c-1", "2c", "2c+1", "c", "2c"}[agentfx.Bits(t, "big", 3)]
-		f.Size = bigClassesB[f.Class]
+		f.Class = []string{"c-1", "c", "c+1", "2c-1", "2c", "2c+1", "c-n", "c+n"}[agentfx.Bits(t, "big", 3)]
+		switch f.Class {
+		case "c-n": // a little below one chunk: within the headers / wrappings a task gets on its way
+			f.Size = Limit - rapid.IntRange(2, 200).Draw(t, "near")
+		case "c+n":
+			f.Size = Limit + rapid.IntRange(2, 200).Draw(t, "near")
+		default:
+			f.Size = bigClassesB[f.Class]
+		}
 	case k == 1:
 		f.Class, f.Size = "0", 0
 	case k == 2:
@@ -68,9 +106,22 @@ func genB(t *rapid.T) CaseB {
 	c.Name = pathGen.Draw(t, "name")
 	c.Before = rapid.IntRange(0, 2).Draw(t, "before")
 	c.After = rapid.IntRange(0, 1).Draw(t, "after")
-	c.Files = append(c.Files, genFileB(t, true))
+	// target position: direct / pivot child at depth 1 / 2 / 3
+	depth := agentfx.Weighted(t, "position", 35, 20, 23, 22)
+	bw := bigWeightB
+	if depth >= 2 {
+		bw = bigWeightDeepB
+	}
+	if depth > 0 {
+		used := map[uint32]bool{}
+		for i := 0; i <= depth; i++ {
+			c.IDs = append(c.IDs, genIDA(t, used))
+		}
+		c.Mix = agentfx.Weighted(t, "mix", 2, 1) == 1
+	}
+	c.Files = append(c.Files, genFileB(t, true, bw))
 	if c.Use == "bof" {
-		c.Files = append(c.Files, genFileB(t, false))
+		c.Files = append(c.Files, genFileB(t, false, bw))
 	}
 	return c
 }
@@ -78,18 +129,38 @@ func genB(t *rapid.T) CaseB {
 func b64(b []byte) string { return base64.StdEncoding.EncodeToString(b) }
 
 func checkB(c CaseB) *core.Violation {
-	w, err := newWorld(1)
+	ids, parents := []uint32{0x0a0b0001}, []int{-1}
+	if d := c.depth(); d > 0 {
+		ids, parents = append([]uint32(nil), c.IDs[:d+1]...), nil
+		seen := map[uint32]bool{}
+		for i := range ids {
+			for ids[i] == 0 || seen[ids[i]] { // hand-written replays only: the generator draws distinct non-zero ids
+				ids[i] = ids[i]*31 + 7
+			}
+			seen[ids[i]] = true
+			parents = append(parents, i-1)
+		}
+	}
+	w, err := newForest(ids, parents)
 	if err != nil {
 		return core.V("harness|fixture", "%v", err)
 	}
 	buf := big()
-	a := w.ses[0].A
+	tgt := len(ids) - 1
+	a := w.ses[tgt].A
+	// everything queued for an agent of the chain comes out, wrapped hop by hop, at the
+	// check-ins of the directly connected agent at its top, in one queue order
 	m := w.mod[0]
+	via := w.via(tgt)
 	small := func(i int) {
 		req := 0x6b000000 + uint32(i)
 		body := buf[100+i : 100+i+8+i]
-		a.AddJobToQueue(agent.Job{Command: agent.COMMAND_SLEEP, RequestID: req, Data: []interface{}{body}})
-		m.q = append(m.q, &entry{kind: eExact, cmd: agent.COMMAND_SLEEP, req: req, pre: binary.LittleEndian.AppendUint32(nil, uint32(len(body))), off: 100 + i, n: len(body), pure: len(body), op: i})
+		g := tgt
+		if c.Mix {
+			g = i % len(ids)
+		}
+		w.ses[g].A.AddJobToQueue(agent.Job{Command: agent.COMMAND_SLEEP, RequestID: req, Data: []interface{}{body}})
+		m.q = append(m.q, &entry{kind: eExact, cmd: agent.COMMAND_SLEEP, req: req, pre: binary.LittleEndian.AppendUint32(nil, uint32(len(body))), off: 100 + i, n: len(body), pure: len(body), op: i, via: w.via(g)})
 	}
 	for i := 0; i < c.Before; i++ {
 		small(i)
@@ -143,11 +214,12 @@ func checkB(c CaseB) *core.Violation {
 		}
 	}
 	user.cmd = uint32(cmd)
+	user.via = via
 	info["CommandID"] = strconv.Itoa(cmd)
 	msg := map[string]string{}
 	job, err := a.TaskPrepare(cmd, info, &msg, "client", w.rec)
 	for i, ct := range contents {
-		m.q = append(m.q, &entry{kind: eChunks, content: ct, slot: i, op: 100})
+		m.q = append(m.q, &entry{kind: eChunks, content: ct, slot: i, op: 100, via: via})
 	}
 	if err != nil || job == nil {
 		return core.V("b|prepare|failed", "TaskPrepare(%s) failed: %v", c.Use, err)
@@ -173,8 +245,45 @@ func classifyB(c CaseB) core.Class {
 		}
 	}
 	cl.Labels = append(cl.Labels, "use:"+c.Use, fmt.Sprintf("before:%d", c.Before), fmt.Sprintf("after:%d", c.After))
+	// where the file was pushed to
+	d := c.depth()
+	if d == 0 {
+		cl.Labels = append(cl.Labels, "target:direct")
+	} else {
+		cl.Labels = append(cl.Labels, fmt.Sprintf("target:pivot-depth-%d", d))
+		hop := map[string]bool{}
+		for _, id := range c.IDs[1 : d+1] { // first hop excluded: its id is not rendered into any wrapping
+			hop[idClassA(id)] = true
+		}
+		var hl []string
+		for k := range hop {
+			hl = append(hl, "pivot-hop-id:"+k)
+		}
+		sort.Strings(hl)
+		cl.Labels = append(cl.Labels, hl...)
+		if c.Mix && c.Before+c.After > 0 {
+			cl.Labels = append(cl.Labels, "small-tasks:spread-over-chain")
+		}
+	}
+	maxSize := 0
+	for _, f := range c.Files {
+		if f.Size > maxSize {
+			maxSize = f.Size
+		}
+	}
+	switch {
+	case maxSize >= Limit && d >= 2:
+		cl.Labels = append(cl.Labels, "conj:target-depth>=2 x file>=1-chunk")
+	case maxSize >= Limit && d == 1:
+		cl.Labels = append(cl.Labels, "conj:target-depth=1 x file>=1-chunk")
+	case maxSize >= Limit:
+		cl.Labels = append(cl.Labels, "conj:target-direct x file>=1-chunk")
+	}
+	if maxSize >= Limit-200 && maxSize < Limit && d >= 2 {
+		cl.Labels = append(cl.Labels, "conj:target-depth>=2 x file-just-below-1-chunk")
+	}
 	cl.NonTrivial = true // every case has a chunk task and the command queued together
-	cl.Fingerprint = fmt.Sprintf("%s|b=%d|a=%d", fp, c.Before, c.After)
+	cl.Fingerprint = fmt.Sprintf("%s|b=%d|a=%d|d=%d", fp, c.Before, c.After, d)
 	return cl
 }
 
@@ -182,7 +291,7 @@ func TestC04b(t *testing.T) {
 	big()
 	core.Run(t, core.Spec[CaseB]{
 		Property: "C04", Sub: "b",
-		Rule: "one file push per case through TaskPrepare: fs upload (1 file), inline-execute (BOF object + argument buffer = 2 files), dotnet inline-execute (1 file); file sizes {0, 1, c-1, c, c+1, 2c-1, 2c, 2c+1 (c = 0x1e00000), 2-5000, 5001-2 MiB}; 0-2 small tasks queued before and 0-1 after; the queue is drained through check-ins. Oracle: the (a) oracle plus: the tasks before the command are COMMAND_MEM_FILE records [id][total][bytes] with one id per file and total = file size, at least one per file, concatenating to exactly the file, and the command carries those ids. Every case is non-trivial (>=2 tasks queued together); distinct = (use, size classes, before, after)",
+		Rule: "one file push per case through TaskPrepare: fs upload (1 file), inline-execute (BOF object + argument buffer = 2 files), dotnet inline-execute (1 file); file sizes {0, 1, c-1, c, c+1, 2c-1, 2c, 2c+1 (c = 0x1e00000), 2-5000, 5001-2 MiB}; 0-2 small tasks queued before and 0-1 after; the queue is drained through check-ins. Oracle: the (a) oracle plus: the tasks before the command are COMMAND_MEM_FILE records [id][total][bytes] with one id per file and total = file size, at least one per file, concatenating to exactly the file, and the command carries those ids. Every case is non-trivial (>=2 tasks queued together); distinct = (use, size classes, before, after, target depth). TARGET POSITION (independent of use and size class): the agent the file is pushed to is directly connected (35%) or the last agent of an SMB pivot chain of depth 1 / 2 / 3 (20 / 23 / 22%) linked through the real, relayed SMB_CONNECT callback, ids of all hops drawn from {<2^31, >=2^31, 2^31-1, 2^31, 2^32-1, leading zero digits}; all size classes occur at every position, plus two more: c-n and c+n with n in 2..200 (a file within the headers / wrappings of one chunk); for a target behind >= 2 hops the share of files around multiples of the chunk size is 16:80 instead of 7:80, so that 'target depth >= 2 x file >= one chunk' (label conj:...) is met about 15 times in a quick run; in 1 of 3 pivot cases the small tasks before / after are spread over the agents of the chain instead of all going to the target. The oracle is evaluated where the bytes really end up: the queue of the directly connected agent at the top of the chain is drained, each delivered task is unwrapped hop by hop (COMMAND_PIVOT [SMB_COMMAND][next id][frame = [next id][size][one task under the next hop's key]], SmbRecv's frame rules) down to what the target executes, and then: chunk records carry one file id and total = file size, concatenate in order to exactly the file, and are followed by the command naming those ids, all in queue order with the small tasks",
 		Gen:  genB, Check: checkB, Classify: classifyB,
 		Assumptions: []string{"empty chunks are allowed (the concatenation is unchanged); at least one chunk per file is required because the command refers to the file through the id the chunks carry"},
 	})
